@@ -7,3 +7,8 @@ import Csproto.Props.C09
 #print axioms Csproto.C09.readers_agree
 #print axioms Csproto.C09.cache_reader_breaks_it
 #print axioms Csproto.C09.runtime_cache_convention_breaks_it
+#print axioms Csproto.C09.unmarshal_empty_ok
+#print axioms Csproto.C09.unmarshal_empty_is_reset
+#print axioms Csproto.C09.marshal_after_empty_unmarshal
+#print axioms Csproto.C09.fact_csproto_routes
+#print axioms Csproto.C09.fact_extension_order_static
